@@ -16,8 +16,8 @@ type PCase struct {
 	ID         int
 	Cfg        Cfg
 	SchemaID   string
-	Schema     any   // generic JSON value; marshalled with sorted keys
-	Docs       []any // generic JSON values
+	Schema     any    // generic JSON value; marshalled with sorted keys
+	Docs       []any  // generic JSON values
 	DecodeType string // "" = root type
 	Labels     []string
 	Stream     string
@@ -154,11 +154,14 @@ func RunPipeline(cases []*PCase) ([]*PResult, *Batch, error) {
 	}
 	var slots []slot
 	for _, r := range results {
-		if r.Real.Src == nil || r.Real.ParseErr != "" || r.Case.Cfg.OnlyModels {
+		if r.Real.Src == nil || r.Real.ParseErr != "" {
 			continue
 		}
 		if msg, bad := batch.CompileFail[r.Case.ID]; bad {
 			r.CompileErr = msg
+			continue
+		}
+		if r.Case.Cfg.OnlyModels {
 			continue
 		}
 		if !hasType(r.Real.Summary, r.RootName) {
